@@ -2166,7 +2166,13 @@ class CodeGenerator(StructuredCodeGenerator):
 
         self.emit("! {{{ %s" % inst)
         self.emit("")
+        # Statements made by the rewriting passes (e.g. expand_IfThenElse)
+        # carry a condition that is not part of the enclosing AST.
+        if inst.condition is not True:
+            self.emit_if_begin(inst.condition)
         super().lower_inst(inst)
+        if inst.condition is not True:
+            self.emit_if_end()
         self.emit("")
         self.emit("! }}}")
         self.emit("")
